@@ -467,7 +467,7 @@ def gen_gost(tier, rng, names):
 
 RANDOM_COUNTS = {            # (chacha, hchacha, gost crypt) random cases per tier, generated inside the workers
     "quick": (40000, 8000, 24000),
-    "thorough": (300000, 50000, 200000),
+    "thorough": (800000, 120000, 500000),
 }
 
 
